@@ -282,6 +282,33 @@ def run(ctx):
             ctx.fail_input("tensor", dict(make_dipolar="z-axis"), "make_dipolar tensor is not traceless", classify)
     except Exception as e:
         ctx.notes.append("make_dipolar probe skipped: %r" % e)
+    # ---- get_pair_dipolar_couplings (the 2D-plot helper): the same constants, for pairs in any order, zero on the diagonal, in every unit
+    from soprano.calculate.nmr.utils import get_pair_dipolar_couplings
+    from soprano.properties.nmr import DipolarCoupling as _DC
+    for t in range(12 if quick else 200):
+        c = gen_case(rng, 4 * t)
+        n = len(c["syms"])
+        if n < 2 or len(set(map(tuple, c["pos"]))) < n:
+            continue
+        a = mk(c)
+        pairs = [(rng.randrange(n), rng.randrange(n)) for _ in range(6)] + [(1, 0), (0, 0)]
+        unit = rng.choice(["Hz", "kHz", "MHz"])
+        ctx.evaluations += 1
+        try:
+            got = get_pair_dipolar_couplings(a, pairs, unit=unit)
+            allp = _DC.get(mk(c))
+            fac = {"Hz": 1.0, "kHz": 1e-3, "MHz": 1e-6}[unit]
+            bad = None
+            for (i, j), g in zip(pairs, got):
+                want = 0.0 if i == j else allp[(min(i, j), max(i, j))][0] * fac
+                if abs(g - want) > 1e-9 * max(1e-12, abs(want)):
+                    bad = "pair (%d, %d) in %s: %r, the coupling of that pair is %r" % (i, j, unit, g, want)
+                    break
+            ctx.seen(("pairhelper", unit, n, bad is None))
+            if bad:
+                ctx.fail_input("pairhelper", dict(c, pairs=[list(p_) for p_ in pairs], unit=unit), "get_pair_dipolar_couplings: " + bad, classify)
+        except Exception as e:
+            ctx.fail_input("pairhelper", dict(c, pairs=[list(p_) for p_ in pairs], unit=unit), "get_pair_dipolar_couplings raised %s: %s" % (type(e).__name__, str(e)[:160]), classify)
     if ctx.tier == "thorough":
         ctx.coqchk()
 
